@@ -128,13 +128,18 @@ pub enum Prog {
     ConsumeSyncAwait,
     /// a join future is created, the owner detached; stop; the join future still yields the actor
     JoinStartDetachStopAwait,
+    /// stop through a plain address, let the actor end, then consume: the stop inside consume is
+    /// rejected, the value is still there. (On tokio the join handle's first poll may find the
+    /// cooperative budget used up and answer Pending once - consume waits, as on every runtime.)
+    ConsumeAfterTheEnd,
     /// the k-th owner script of C17's family (join / consume / consume_sync / detach / to_addr in
     /// every order C17 knows), with a submitter and a late stopper: whatever the owner sees, it
     /// sees the same on every runtime
     OwnerScript(u8),
 }
 
-pub const PROGS: [Prog; 18] = [
+pub const PROGS: [Prog; 19] = [
+    Prog::ConsumeAfterTheEnd,
     Prog::SubMsTicks,
     Prog::HugeTimers,
     Prog::Call,
@@ -288,6 +293,13 @@ fn ops_for(prog: Prog, owning: bool) -> Vec<Op> {
         Prog::ConsumeSyncAwait => {
             if owning {
                 vec![Op::Call(t, 1), Op::ConsumeSync(H::Own(0)), Op::JoinAwait(0)]
+            } else {
+                vec![Op::Call(t, 1), Op::Yield, Op::Call(t, 2)]
+            }
+        }
+        Prog::ConsumeAfterTheEnd => {
+            if owning {
+                vec![Op::Call(t, 1), Op::ToAddr(H::Own(0)), Op::Stop(H::Addr(0)), Op::Sleep(3), Op::Consume(H::Own(0))]
             } else {
                 vec![Op::Call(t, 1), Op::Yield, Op::Call(t, 2)]
             }
@@ -455,7 +467,7 @@ impl Scene for S {
                 // (the owner scripts stop, consume and detach at will: only the comparison across
                 // the runtimes speaks about them)
                 Prog::OwnerScript(_) => false,
-                Prog::InFlightJoinSecondJoin => o.i == 0,
+                Prog::InFlightJoinSecondJoin | Prog::ConsumeAfterTheEnd => o.i == 0,
             };
             if o.c == 0 && call_op && is_call {
                 crate::check::oblige("actor-runs-after-spawn-returned");
@@ -591,6 +603,10 @@ fn cases(tier: Tier) -> Vec<Case> {
                     spin_is_outcome: true,
                     real_crosscheck: !matches!(prog, Prog::SubMsTicks | Prog::HugeTimers),
                     // programs that poll a join future exactly once see whether the handle's lock suspends
+                    // (the budget of tokio's cooperative scheduling is a choice where a finished task
+                    // is joined; the uncontended lock in front of the handle does not suspend)
+                    coop_is_choice: prog == Prog::ConsumeAfterTheEnd,
+                    yield_at_lock: prog != Prog::ConsumeAfterTheEnd,
                     lock_yield_is_choice: matches!(prog, Prog::InFlightJoinDetachCall | Prog::InFlightJoinSecondJoin) || matches!(prog, Prog::OwnerScript(k) if crate::props::c17::owner_scripts()[k as usize].0.contains("polled")),
                     ..ExecCfg::default()
                 },
